@@ -280,7 +280,32 @@ class Engine:
         if node.id in self.local_names:
             self.may_raise(st, FALSE, "UnboundLocalError", node.id)
             return NoneV()
+        sib = self._sibling_function(node.id)
+        if sib is not None:
+            # a helper defined next to the function under contract inside the same enclosing function, that uses
+            # nothing but its parameters: calls are inlined (a block moved into a local function keeps the proof)
+            v = FnV("sibling", node=sib)
+            st.env[node.id] = v
+            return v
         raise GenerationError(f"unbound name {node.id} in {self.c.qualname}")
+
+    def _sibling_function(self, name: str):
+        if not self.c.nested_in or name in self.c.calls:
+            return None
+        try:
+            outer = self.repo.func(self.c.nested_in)
+        except Exception:
+            return None
+        from .source import _defs_in
+        for d in _defs_in(outer.node):
+            if isinstance(d, ast.FunctionDef) and d.name == name and d is not self.func.node:
+                params = {a.arg for a in d.args.args}
+                bound = params | {n.id for n in ast.walk(d) if isinstance(n, ast.Name) and isinstance(n.ctx, ast.Store)}
+                free = {n.id for n in ast.walk(d) if isinstance(n, ast.Name) and isinstance(n.ctx, ast.Load)} - bound
+                import builtins
+                if all(hasattr(builtins, f) for f in free):
+                    return d
+        return None
 
     def e_Attribute(self, node, st, spec):
         txt = self.origin(node)
